@@ -1,7 +1,7 @@
 from pyvc.table_engine import TableEngine
 ID = "C07"
 LEVEL = "other"
-CONTRACT_MODULES = ["contracts.table_cache", "contracts.table_setitem", "contracts.table_desig", "contracts.table_split", "contracts.table_labels"]
+CONTRACT_MODULES = ["contracts.table_cache", "contracts.table_setitem", "contracts.table_desig", "contracts.table_split", "contracts.table_labels", "contracts.table_ctor"]
 FUNCTIONS = ["Table._make_cache", "Table._get_cache", "Table._get_row_cache", "Table._get_row_cache_raise", "Table.__setitem__", "Table._append_row", "Table._concatenate_table", "Table.__delitem__", "Table.pop",
              # which row a designator (position / text / (name, count[, offset])) resolves to, and the entry points that forward to it
              "Table._get_row_index@int", "Table._get_row_index@str", "Table._get_row_index@tuple2", "Table._get_row_index@tuple3", "Table._get_row_index@other",
@@ -9,7 +9,9 @@ FUNCTIONS = ["Table._make_cache", "Table._get_cache", "Table._get_row_cache", "T
              # what a designator TEXT denotes: the six spellings of the statement over SMT-LIB strings (pyvc/strsplit_engine.py, cvc5 --strings-exp)
              "Table._split_name_count_offset@text",
              # the unique row labels: third result of _make_cache, handed out unchanged by cols.get_index_unique
-             "Table._make_cache@labels", "_ColView.get_index_unique@forwards-labels"]
+             "Table._make_cache@labels", "_ColView.get_index_unique@forwards-labels",
+             # a freshly constructed table (every derivation builds its result this way) has no lookup tables: CacheOK holds trivially at birth
+             "Table.__init__@unchecked"]
 RAC = "rac/c07.py"
 RAC_BUDGET = {"quick": 60, "thorough": 900}
 RAC_MIN = {"quick": 8400, "thorough": 8400}      # fewer run-time evaluations than this = the harness skipped its work: checker broken, not "held"
